@@ -397,6 +397,90 @@ fn fold_positions(e: &str) -> Vec<String> {
     ]
 }
 
+/// (l) statements standing after a statement that never completes (break / continue / return / a call of a `-> !`
+/// function), in every kind of body - blocks, function bodies, loop bodies, branches, arms, module bodies and imported
+/// files (whose declarations, also the unreachable ones, are the module's fields)
+pub fn unreachable_code_programs(import_dir: Option<&str>) -> Vec<String> {
+    let pres = ["", "a := 1; "];
+    let divs = ["break", "continue", "return 1", "return", "never()", "loop { }", "if true { break } else { continue }"];
+    let posts = [
+        "a := 2", "b := a", "g := () -> int { return 1 }", "a := 1; b := a + 1", "(p, q) := (1, 2)", "c := mut 0; c += 1", "n := mod { z := 1 }", "loop { break; }",
+        "a := \"s\"; b := a + \"t\"", "x := [1][5]", "x := 1 / 0", "h := () -> int { return a }", "",
+    ];
+    let containers = [
+        "loop { m := mod { BODY }; break; }",
+        "loop { m := mod { BODY }; r := m.a; break; }",
+        "loop { m := mod { BODY }; r := (m.a, m.b); break; }",
+        "f := () -> int { m := mod { BODY }; return 1 }; f()",
+        "f := () -> int { m := mod { BODY }; return m.a }; f()",
+        "loop { { BODY } break; }",
+        "f := () -> int { BODY; return 2 }; f()",
+        "loop { if true { BODY } break; }",
+        "loop { match 1 { 1 => { BODY }, => { } } break; }",
+        "loop { if v: int = 1 { BODY } break; }",
+        "for x in [1]~ { BODY }",
+        "f := () -> int { loop { BODY } return 3 }; f()",
+        "m := mod { f := () -> int { BODY; return 4 } }; m.f()",
+        "f := () -> () -> int { return () -> int { BODY; return 5 } }; f()()",
+    ];
+    let never = "never := () -> ! { return never() }; ";
+    let mut out = Vec::new();
+    for c in containers {
+        for pre in pres {
+            for div in divs {
+                for post in posts {
+                    let body = format!("{pre}{div}; {post}");
+                    out.push(format!("{never}{}", c.replace("BODY", &body)));
+                }
+            }
+        }
+    }
+    if let Some(dir) = import_dir {
+        let mut k = 0;
+        for pre in pres {
+            for div in divs {
+                for post in posts {
+                    k += 1;
+                    let path = format!("{dir}/unreach{k}.ssl");
+                    if std::fs::write(&path, format!("{pre}{div}; {post}")).is_err() {
+                        continue;
+                    }
+                    for c in ["loop {{ m := import \"{}\"; break; }}", "loop {{ m := import \"{}\"; r := m.a; break; }}", "f := () -> int {{ m := import \"{}\"; return 1 }}; f()", "m := import \"{}\"; m"] {
+                        out.push(format!("{never}{}", c.replace("{{", "{").replace("}}", "}").replace("{}", &path)));
+                    }
+                }
+            }
+        }
+    }
+    out
+}
+
+/// (m) constructs whose helper functions the interpreter builds lazily, as the *first* thing a fresh process parses
+/// with a bare interpreter - at top level, inside a function, inside a module, inside an imported file
+pub fn first_use_texts(import_dir: &str) -> Vec<String> {
+    let uses = [
+        "[true]~ $&&", "[true]~ $||", "[1]~ $&", "[1]~ $|", "[1]~ $+", "[1.5]~ $+", "[\"a\"]~ $+", "[1]~ $*", "[1.5]~ $*", "[1]~ $]", "[1]~", "[1]~ @ (x: int) -> int { return x }",
+        "[1]~ ? (x: int) -> bool { return true }", "[1]~ \\ (x: int) -> bool { return true }", "[1, \"a\"]~ ? int", "[1]~ $ 0 (a: int, x: int) -> int { return a + x }",
+        "for x in [1]~ { x; }", "[[true]~ $&&, [false]~ $||]", "[1]~ ? mut int",
+    ];
+    let mut out = Vec::new();
+    for (k, u) in uses.iter().enumerate() {
+        out.push(format!("r := {u}; r"));
+        out.push(format!("f := () -> any {{ return {u} }}; f()"));
+        out.push(format!("m := mod {{ r := {u} }}; m.r"));
+        let path = format!("{import_dir}/first{k}.ssl");
+        if std::fs::write(&path, format!("r := {u};")).is_ok() {
+            out.push(format!("m := import \"{path}\"; m.r"));
+            out.push(format!("f := () -> any {{ m := import \"{path}\"; return m.r }}; f()"));
+            let outer = format!("{import_dir}/first{k}_outer.ssl");
+            if std::fs::write(&outer, format!("inner := import \"{path}\"; q := inner.r;")).is_ok() {
+                out.push(format!("m := import \"{outer}\"; m.q"));
+            }
+        }
+    }
+    out
+}
+
 fn scratch_dir(cfg: &Cfg) -> std::path::PathBuf {
     let d = std::path::PathBuf::from(format!("/verif/target/scratch/c03-{}-{}", std::process::id(), cfg.shard));
     let _ = std::fs::create_dir_all(&d);
@@ -435,6 +519,18 @@ fn corpus() -> Vec<String> {
 }
 
 pub fn run(cfg: &Cfg, rep: &mut Report) {
+    if let Some(spec) = cfg.extra.get("fresh") {
+        // child process: parse (and run) text number k of the first-use family with a bare interpreter, nothing before it
+        let (k, dir) = spec.split_once(':').unwrap_or(("0", ""));
+        let texts = first_use_texts(dir);
+        let Some(text) = texts.get(k.parse::<usize>().unwrap_or(0)) else { return };
+        let interp = Interpreter::without_stdlib();
+        match real::guarded(|| Code::parse(&interp, text).map(|c| c.exec().map(|v| v.to_string()))) {
+            Ok(r) => println!("OK {}", crate::util::truncate(&format!("{r:?}"), 200).replace('\n', " ")),
+            Err(p) => println!("PANIC {} {}", p.site(), p.short_msg().replace('\n', " ")),
+        }
+        return;
+    }
     let deadline = Deadline::new(cfg.budget_s);
     let mut ctx = Ctx::new(rep);
     let mut rng = cfg.rng(3);
@@ -543,7 +639,44 @@ pub fn run(cfg: &Cfg, rep: &mut Report) {
             let r = ctx.parse("import-twice", &src, false);
             ctx.rep.shape("import_cases", &format!("twice:{}", ["syntax-error", "checker-error", "accepted", "panic"][r as usize]));
         }
+        // (l) statements after a diverging statement, in imported files (the inline forms are split over all shards below)
+        for src in unreachable_code_programs(Some(&dir)).iter().filter(|t| t.contains("import")) {
+            let r = ctx.parse("unreachable-code", src, false);
+            ctx.rep.shape("import_cases", &format!("unreachable:{}", ["syntax-error", "checker-error", "accepted", "panic"][r as usize]));
+        }
+        // (m) first use of every lazily built helper in a fresh process with a bare interpreter
+        if let Ok(exe) = std::env::current_exe() {
+            let n = first_use_texts(&dir).len();
+            for k in 0..n {
+                let out = std::process::Command::new(&exe).args(["C03", "--out", "/dev/null", "--opt", &format!("fresh={k}:{dir}")]).stdin(std::process::Stdio::null()).output();
+                ctx.rep.evaluations += 1;
+                match out {
+                    Ok(o) => {
+                        let text = String::from_utf8_lossy(&o.stdout);
+                        let line = text.lines().last().unwrap_or("");
+                        if line.starts_with("OK ") {
+                            ctx.rep.count("first-use-in-fresh-process:ok");
+                        } else if let Some(rest) = line.strip_prefix("PANIC ") {
+                            let src = first_use_texts(&dir).get(k).cloned().unwrap_or_default();
+                            let site = rest.split(' ').next().unwrap_or("?");
+                            ctx.rep.violation(&format!("c03:first-use-in-fresh-process:panic:{site}"), &format!("as the first thing a process parses (bare interpreter), `{}` panicked: {rest}", crate::util::truncate(&src.replace(&dir, "<dir>"), 200)), "c03-fresh", &src);
+                        } else if !o.status.success() {
+                            let src = first_use_texts(&dir).get(k).cloned().unwrap_or_default();
+                            ctx.rep.violation("c03:first-use-in-fresh-process:abort", &format!("as the first thing a process parses, `{}` killed the process ({})", crate::util::truncate(&src.replace(&dir, "<dir>"), 200), o.status), "c03-fresh", &src);
+                        } else {
+                            ctx.rep.inconclusive("first-use-child-no-verdict");
+                        }
+                    }
+                    Err(_) => ctx.rep.inconclusive("first-use-child-not-started"),
+                }
+            }
+        }
         let _ = std::fs::remove_dir_all(&d);
+    }
+    for (idx, src) in unreachable_code_programs(None).iter().enumerate() {
+        if cfg.owns(idx as u64) {
+            ctx.parse("unreachable-code", src, false);
+        }
     }
 
     // (e) failing constant subexpressions in every constant position
